@@ -304,3 +304,78 @@ pub fn drive_shipped(args: &HashMap<String, String>) {
     }
     rep.write(outp);
 }
+
+/// R direction for C01-C03: programs enumerated by TLC (MC_ChialispGen) with the outcome Chialisp.tla predicts for each
+/// argument tree are compiled under each build and run; the property is evaluated against the prediction.
+pub fn replay_chialisp(args: &HashMap<String, String>) {
+    let input = args.get("in").expect("--in");
+    let outp = args.get("out").expect("--out");
+    let prop = args.get("prop").map(|s| s.as_str()).unwrap_or("C01").to_string();
+    let builds: Vec<String> = args.get("builds").expect("--builds").split(',').map(|s| s.to_string()).collect();
+    let vectors = crate::util::read_tlc_vectors(input, "V");
+    let mut jobs = vec![];
+    let mut owner = vec![];
+    let mut progs = vec![];
+    for (vi, v) in vectors.iter().enumerate() {
+        let p = program_from_json(&v["ast"]);
+        let envs: Vec<V> = v["envs"].as_array().unwrap().iter().map(|e| V::from_json(e).unwrap()).collect();
+        for (b, j) in build_jobs(&p, &envs, &builds) {
+            jobs.push(j);
+            owner.push((vi, b));
+        }
+        progs.push((p, envs));
+    }
+    let cfg = PoolCfg { batch: 8, timeout: Duration::from_secs(15), ..PoolCfg::default() };
+    let results = run_jobs(jobs, &cfg);
+    let mut rep = Report::default();
+    let mut per: Vec<HashMap<String, Value>> = vectors.iter().map(|_| HashMap::new()).collect();
+    for ((vi, b), r) in owner.iter().zip(results.iter()) {
+        per[*vi].insert(b.clone(), r.clone());
+    }
+    for (vi, v) in vectors.iter().enumerate() {
+        rep.evaluations += 1;
+        let (p, envs) = &progs[vi];
+        let res = v["res"].as_array().unwrap();
+        let feats = features(p);
+        let case = || json!({"source": p.render("*SIGIL*"), "envs": envs.iter().map(|e| e.show()).collect::<Vec<_>>(), "features": format!("{:?}", feats),
+            "ast": p.to_json(), "envs_json": envs.iter().map(|e| e.to_json()).collect::<Vec<_>>()});
+        if res.iter().any(|o| o[0] == "ok") {
+            rep.nontrivial(&v["ast"].to_string());
+        }
+        for (b, r) in per[vi].iter() {
+            let obs = outcome_json(r, envs.len());
+            let raw = if let Some(e) = r.get("err") { json!({"comperr": e["msg"]}) } else { r.get("runs").cloned().unwrap_or(r.clone()) };
+            for (i, want) in res.iter().enumerate() {
+                if want[0] != "ok" {
+                    continue;
+                }
+                rep.count("compared");
+                let got = &obs[i];
+                let ran = got[0] == "ok" || got[0] == "err" || got[0] == "fuel";
+                if ran && got != want {
+                    rep.violation(json!({"property": prop, "kind": "build-differs-from-source-meaning", "builds": [b], "env_index": i + 1, "expected": want,
+                        "observed": {b.as_str(): raw}, "case": case()}));
+                    break;
+                }
+            }
+            // C02 (c): with the optimised counterpart present, a value-returning unoptimised build implies a value-returning optimised one
+            if let Some(o) = per[vi].get(&format!("{b}+O")) {
+                if v["staticfail"] != true {
+                    let oo = outcome_json(o, envs.len());
+                    for i in 0..envs.len() {
+                        if obs[i][0] == "ok" && (oo[i][0] == "err" || oo[i][0] == "comperr" || oo[i][0] == "abort") {
+                            rep.violation(json!({"property": prop, "kind": "optimisation-makes-program-fail", "builds": [b, format!("{b}+O")], "env_index": i + 1,
+                                "observed": {b.as_str(): raw.clone(), format!("{b}+O"): o.get("runs").cloned().unwrap_or(o.clone())}, "case": case()}));
+                            break;
+                        }
+                    }
+                }
+            }
+        }
+        if rep.samples.len() < 3 && res.iter().any(|o| o[0] == "ok") {
+            rep.sample(json!({"source": p.render("*standard-cl-21*"), "envs": envs.iter().map(|e| e.show()).collect::<Vec<_>>(), "predicted": v["res"]}));
+        }
+    }
+    rep.traces = rep.evaluations;
+    rep.write(outp);
+}
